@@ -1,7 +1,7 @@
 (* C13 proofs: under the ingestion invariant (ChainMain.Valid) the model of LatestHeaderLocator and
    locateHeadersGetHeaders computes exactly the declarative specification of Locator.v. *)
 From Coq Require Import ZArith NArith List Lia Bool.
-From BHS Require Import Work WorkProofs Store Chain ChainSpec StoreProofs ChainInv ChainReorg ChainAdd ChainMain Locator.
+From BHS Require Import Work WorkProofs Store Chain ChainSpec StoreProofs ChainInv ChainReorg ChainAdd ChainMain ChainFields Locator.
 From BHSGen Require Import Params.
 Import ListNotations.
 Open Scope Z_scope.
@@ -361,7 +361,7 @@ Lemma latest_locator_mc s mc tip t g : mc_facts s mc tip t g -> latest_locator s
 Proof.
   intros F.
   pose proof (mc_height_pos _ _ _ _ _ F) as Hp. pose proof (mf_len _ _ _ _ _ F) as Hlen.
-  unfold latest_locator, spec_locator, tip_height. rewrite (mf_tipB _ _ _ _ _ F).
+  unfold latest_locator, spec_locator_mc. rewrite (mf_tipB _ _ _ _ _ F).
   replace (S (Z.to_nat (height t))) with (length (mc)) by lia.
   replace (Z.of_nat (length (mc)) - 1) with (height t) by lia.
   change 1 with (gap Datatypes.O).
@@ -569,9 +569,9 @@ Proof.
 Qed.
 
 (* position view of a segment of the main chain: the rows with height lo .. lo+n-1 *)
-Definition seg (s : store) (lo : Z) (n : nat) : list row := firstn n (skipn (Z.to_nat lo) (mc)).
+Definition seg (mc : list row) (lo : Z) (n : nat) : list row := firstn n (skipn (Z.to_nat lo) mc).
 
-Lemma range_L_seg mc mc tip t g lo hi : mc_facts s mc tip t g -> 0 <= lo ->
+Lemma range_L_seg s mc tip t g lo hi : mc_facts s mc tip t g -> 0 <= lo ->
   range_L s lo hi = seg mc lo (Z.to_nat (hi - lo + 1)).
 Proof.
   intros F Hlo. unfold range_L, seg.
@@ -603,7 +603,7 @@ Proof.
 Qed.
 
 (* the specification, position view *)
-Lemma spec_locate_seg mc mc tip t g locs stop : mc_facts s mc tip t g ->
+Lemma spec_locate_seg s mc tip t g locs stop : mc_facts s mc tip t g ->
   spec_locate_mc mc locs stop =
   let a := anchor_mc mc locs in
   match find (fun r => N.eqb (id r) stop) (mc) with
@@ -636,7 +636,7 @@ Definition gen_stop (s : store) (stop : N) : bool :=
   match by_height_L s 0 with Some g => N.eqb (id g) stop | None => false end.
 
 (* the model, position view *)
-Lemma locate_seg mc mc tip t g locs stop : mc_facts s mc tip t g ->
+Lemma locate_seg s mc tip t g locs stop : mc_facts s mc tip t g ->
   answer (locate s locs stop) =
   let a := anchor_mc mc locs in
   let sh0 := if N.eqb stop 0 then a + cap else stop_height s stop in
@@ -919,4 +919,122 @@ Proof.
   - rewrite (Z.mod_small (height t) 256) by lia. rewrite Z.mod_small by lia. lia.
   - rewrite (Z.mod_small (height t) (2 ^ 32)) by lia. rewrite (Z.mod_small (height t - 10) (2 ^ 32)) by lia.
     pose proof (log2_range (height t - 10) ltac:(lia)). rewrite Z.mod_small by lia. lia.
+Qed.
+
+(* ================================================================ the two instances *)
+(* (A) Valid s - positive-work histories: "the longest chain" is main_chain s, the ancestors of the
+       greatest-cumulative-work header (ChainSpec.best), which is also what the labels say. *)
+Theorem latest_locator_spec s : Valid s -> latest_locator s = Some (spec_locator s).
+Proof. intros HV. destruct (valid_mc s HV) as (tip & t & g & F). exact (latest_locator_mc _ _ _ _ _ F). Qed.
+
+Theorem locator_shape_thm s : Valid s ->
+  exists t hs,
+    tipB s = Some t /\
+    latest_locator s = Some (map (at_height s) hs) /\
+    hd 0%N (map (at_height s) hs) = id t /\ hd 0 hs = height t /\
+    last (map (at_height s) hs) 0%N = genesis_id s /\ last hs 0 = 0 /\
+    shape Datatypes.O hs /\
+    (forall pre a b post, hs = pre ++ a :: b :: post -> b < a) /\
+    (forall h, In h hs -> exists r, In r s /\ st r = Longest /\ height r = h /\ id r = at_height s h).
+Proof. intros HV. destruct (valid_mc s HV) as (tip & t & g & F). exact (locator_shape_mc _ _ _ _ _ F). Qed.
+
+Theorem locator_length_thm s t : Valid s -> tipB s = Some t -> height t < 2 ^ 31 ->
+  exists l, latest_locator s = Some l /\ Z.of_nat (length l) = max_entries (height t) /\ max_entries (height t) <= 43.
+Proof. intros HV. destruct (valid_mc s HV) as (tip & t0 & g & F). exact (locator_length_mc _ _ _ _ _ t F). Qed.
+
+Theorem locate_matches_spec s locs stop : Valid s -> answer (locate s locs stop) = spec_locate s locs stop.
+Proof. intros HV. destruct (valid_mc s HV) as (tip & t & g & F). exact (locate_matches_mc _ _ _ _ _ locs stop F). Qed.
+
+Theorem locate_safe_thm s locs stop : Valid s ->
+  let l := answer (locate s locs stop) in
+  (length l <= Z.to_nat cap)%nat /\ linked l /\
+  (forall r, In r l -> In r s /\ st r = Longest /\ anchor s locs < height r) /\
+  l = seg (main_chain s) (anchor s locs + 1) (length l).
+Proof. intros HV. destruct (valid_mc s HV) as (tip & t & g & F). exact (locate_safe_mc _ _ _ _ _ locs stop F). Qed.
+
+Theorem spec_locate_meaning s locs stop : Valid s ->
+  let a := anchor s locs in let l := spec_locate s locs stop in
+  is_anchor (main_chain s) (fun r => memN (id r) locs) a /\
+  l = seg (main_chain s) (a + 1) (length l) /\ (length l <= Z.to_nat cap)%nat /\ linked l /\
+  (forall r, In r l -> In r s /\ st r = Longest) /\
+  (forall x, In x (main_chain s) -> id x = stop ->
+     (height x <= a -> l = []) /\
+     (a < height x <= a + cap -> last l x = x) /\
+     (a + cap < height x -> length l = Z.to_nat cap)) /\
+  ((forall x, In x (main_chain s) -> id x <> stop) ->
+     Z.of_nat (length l) = Z.min cap (tip_height s - a)).
+Proof. intros HV. destruct (valid_mc s HV) as (tip & t & g & F). exact (spec_locate_meaning_mc _ _ _ _ _ locs stop F). Qed.
+
+(* (B) exists tip, Inv s tip - EVERY history, zero-work headers included (ChainFields.reachable_inv): "the
+       longest chain" is tip_chain s, the ancestors of the header the repository reports as tip, which are exactly
+       the rows labelled LONGEST_CHAIN.  (For zero-work histories this chain need not be the greatest-work one:
+       C01's known finding; what is proved here is that locator and getheaders describe the LABELLED chain.) *)
+Theorem tip_chain_any_work s : (exists tip, Inv s tip) ->
+  tip_chain s = filter isL (orev s) /\
+  exists t, tipB s = Some t /\ tip_chain s = rev (chain s (id t)) /\ asc_from 0 (tip_chain s) /\ linked (tip_chain s).
+Proof.
+  intros (tip & HI). destruct (inv_mc s tip HI) as (t & g & F & Hid). destruct (tip_chain_inv s tip HI) as [E1 E2].
+  split; [exact E2|]. exists t. split; [exact (mf_tipB _ _ _ _ _ F)|]. rewrite Hid. split; [exact E1|].
+  rewrite E1. split; [exact (mf_asc _ _ _ _ _ F)| exact (mf_linked _ _ _ _ _ F)].
+Qed.
+
+Theorem tip_chain_valid s : Valid s -> tip_chain s = main_chain s.
+Proof. intros (tip & HI2). apply (main_chain_valid s tip HI2). Qed.
+
+Theorem latest_locator_any_work s : (exists tip, Inv s tip) -> latest_locator s = Some (spec_locator_mc (tip_chain s)).
+Proof. intros HI. destruct (inv_tip_mc s HI) as (tip & t & g & F). exact (latest_locator_mc _ _ _ _ _ F). Qed.
+
+Theorem locator_shape_any_work s : (exists tip, Inv s tip) ->
+  exists t hs,
+    tipB s = Some t /\
+    latest_locator s = Some (map (at_height_mc (tip_chain s)) hs) /\
+    hd 0%N (map (at_height_mc (tip_chain s)) hs) = id t /\ hd 0 hs = height t /\
+    last (map (at_height_mc (tip_chain s)) hs) 0%N = genesis_id s /\ last hs 0 = 0 /\
+    shape Datatypes.O hs /\
+    (forall pre a b post, hs = pre ++ a :: b :: post -> b < a) /\
+    (forall h, In h hs -> exists r, In r s /\ st r = Longest /\ height r = h /\ id r = at_height_mc (tip_chain s) h).
+Proof. intros HI. destruct (inv_tip_mc s HI) as (tip & t & g & F). exact (locator_shape_mc _ _ _ _ _ F). Qed.
+
+Theorem locator_length_any_work s t : (exists tip, Inv s tip) -> tipB s = Some t -> height t < 2 ^ 31 ->
+  exists l, latest_locator s = Some l /\ Z.of_nat (length l) = max_entries (height t) /\ max_entries (height t) <= 43.
+Proof. intros HI. destruct (inv_tip_mc s HI) as (tip & t0 & g & F). exact (locator_length_mc _ _ _ _ _ t F). Qed.
+
+Theorem locate_any_work s locs stop : (exists tip, Inv s tip) ->
+  answer (locate s locs stop) = spec_locate_mc (tip_chain s) locs stop.
+Proof. intros HI. destruct (inv_tip_mc s HI) as (tip & t & g & F). exact (locate_matches_mc _ _ _ _ _ locs stop F). Qed.
+
+Theorem locate_safe_any_work s locs stop : (exists tip, Inv s tip) ->
+  let l := answer (locate s locs stop) in
+  (length l <= Z.to_nat cap)%nat /\ linked l /\
+  (forall r, In r l -> In r s /\ st r = Longest /\ anchor_mc (tip_chain s) locs < height r) /\
+  l = seg (tip_chain s) (anchor_mc (tip_chain s) locs + 1) (length l).
+Proof. intros HI. destruct (inv_tip_mc s HI) as (tip & t & g & F). exact (locate_safe_mc _ _ _ _ _ locs stop F). Qed.
+
+Theorem spec_locate_meaning_any_work s locs stop : (exists tip, Inv s tip) ->
+  let mc := tip_chain s in let a := anchor_mc mc locs in let l := spec_locate_mc mc locs stop in
+  is_anchor mc (fun r => memN (id r) locs) a /\
+  l = seg mc (a + 1) (length l) /\ (length l <= Z.to_nat cap)%nat /\ linked l /\
+  (forall r, In r l -> In r s /\ st r = Longest) /\
+  (forall x, In x mc -> id x = stop ->
+     (height x <= a -> l = []) /\
+     (a < height x <= a + cap -> last l x = x) /\
+     (a + cap < height x -> length l = Z.to_nat cap)) /\
+  ((forall x, In x mc -> id x <> stop) ->
+     Z.of_nat (length l) = Z.min cap (Z.of_nat (length mc) - 1 - a)).
+Proof. intros HI. destruct (inv_tip_mc s HI) as (tip & t & g & F). exact (spec_locate_meaning_mc _ _ _ _ _ locs stop F). Qed.
+
+(* the any-work hypotheses are satisfiable on a store that is NOT Valid-reachable by the positive-work route:
+   ChainMain.zw_hist = G(1), A(2) on G, Z(3) on A with zero work (Z is labelled LONGEST_CHAIN and reported as tip) *)
+Definition zw_store : store := run [] 1 (ex_pl 486604799) zw_hist.
+Example any_work_example :
+  (exists tip, Inv zw_store tip) /\
+  map id (tip_chain zw_store) = [1%N; 2%N; 3%N] /\
+  latest_locator zw_store = Some [3%N; 2%N; 1%N] /\
+  map id (answer (locate zw_store [2%N] 0%N)) = [3%N] /\
+  map id (answer (locate zw_store [] 3%N)) = [2%N; 3%N] /\
+  answer (locate zw_store [3%N] 1%N) = [].
+Proof.
+  split.
+  - apply ChainFields.reachable_inv; [discriminate| apply C01_zero_work_refuted].
+  - vm_compute. repeat split; reflexivity.
 Qed.
